@@ -89,7 +89,7 @@ func main() {
 	f := trcgen.NewFactory()
 
 	// 1. certificates
-	nc := run.Count(300, 10000)
+	nc := run.Count(250, 10000)
 	for i := 0; i < nc; i++ {
 		r := rng.Fork(uint64(i))
 		id := 1 + r.Intn(40)
@@ -133,7 +133,7 @@ func main() {
 	}
 
 	// 2. payloads
-	nt := run.Count(900, 30000)
+	nt := run.Count(650, 30000)
 	for i := 0; i < nt; i++ {
 		r := rng.Fork(uint64(1000000 + i))
 		t := trcgen.GenTRC(r, uint64(r.Range(1, 3)), r.Chance(2, 5), trcgen.RandShape(r), 10*r.Intn(5))
